@@ -12,7 +12,12 @@ import (
 // line:   `plan <a> <b> <fields>` | `const MaxBlocksInResponse`
 // output: `<k> <start>:<max>,<start>:<max>,...` (k requests; just `0` when none); a request that is not
 // by-number / not ascending / has other fields / a nil Max is marked with a `!`-suffix.
+// a planner that never returns is the observable `timeout` of that one case
 func c31PlanRun(line string) string {
+	return vhWithTimeout(5000, func() string { return c31PlanRun1(line) })
+}
+
+func c31PlanRun1(line string) string {
 	f := strings.Fields(line)
 	if len(f) == 0 {
 		return "bad-op"
